@@ -208,6 +208,11 @@ class Ctx:
             samples.extend(b.samples[:3])
         for o in self.obligations[:3]:
             samples.append({"obligation": o["id"], "verdict": o["verdict"], "solver": o.get("solver")})
+        if not self.explanation:
+            self.explanation = (
+                f"hybrid: {n_dis}/{n_obl} pyvc obligations over {len(self.functions)} real functions discharged for all inputs "
+                f"(z3/cvc5, source re-read from /repo); plus bounded stand-in: runtime contracts on the real code over "
+                f"{evals} enumerated cases ({', '.join(b.name for b in self.bounded_runs) or 'none'}) - bounded, never counted as proved")
         cov = {
             "explanation": self.explanation,
             "obligations": n_obl,
